@@ -64,3 +64,7 @@
   (! (= (sub (overlay M lo n S) lo n) (sub S 0 n)) :pattern ((sub (overlay M lo n S) lo n)))))
 (assert (forall ((S (Array Int Int)) (o Int) (n Int))
   (! (= (sub (sub S o n) 0 n) (sub S o n)) :pattern ((sub (sub S o n) 0 n)))))
+; shakeArr(kind, msg, len, n): the first n output bytes of SHAKE-<kind>(msg[0:len]) as a canonical byte string
+(declare-fun shakeArr (Int (Array Int Int) Int Int) (Array Int Int))
+(assert (forall ((k Int) (A (Array Int Int)) (m Int) (n Int) (i Int))
+  (! (= (select (shakeArr k A m n) i) (ite (and (<= 0 i) (< i n)) (shake k A m i) 0)) :pattern ((select (shakeArr k A m n) i)))))
